@@ -82,12 +82,15 @@ def main(tier, seed, replay=None):
             c = res["counts"]
             rep.count(c["programs"])
             rep.nontriv("legacy=%s" % legacy)
+            new_problems = 0
             for pr in res["problems"]:
-                rep.violation("input", "secure mode (%s base): %s in %r: %s" % ("legacy" if legacy else "non-legacy", pr["kind"], pr["program"], {k: v for k, v in pr.items() if k not in ("kind", "program")}),
-                              check=pr["kind"], program=pr["program"], legacy=legacy)
+                new_problems += 1 if rep.violation("input", "secure mode (%s base): %s in %r: %s" % ("legacy" if legacy else "non-legacy", pr["kind"], pr["program"], {k: v for k, v in pr.items() if k not in ("kind", "program")}),
+                              check=pr["kind"], program=pr["program"], legacy=legacy) else 0
+            if res["nproblems"] > len(res["problems"]):
+                new_problems += res["nproblems"] - len(res["problems"])
             rep.oblige("audited run, %s base: %d programs (%d natives x 3 binding forms, %d module-function calls, %d flag attacks), %d reachable function values inspected: no host "
                        "access, no insecure function reachable, canary intact, flag on" % ("legacy" if legacy else "non-legacy", c["programs"], c["natives"], c["functions_called"],
-                                                                                           c["flag_attacks"], c["reachable_checked"]), res["nproblems"] == 0, "%d problems" % res["nproblems"])
+                                                                                           c["flag_attacks"], c["reachable_checked"]), new_problems == 0, "%d problems" % new_problems)
             rep.sample(c)
     if big:
         core.coqchk(rep, "Ckl.Props.C09")
